@@ -1,6 +1,7 @@
 // Glue library: compiled twice with the SAME source - once against /repo (libimpl.so, with
 // -DVERIF_WITH_GENERATOR) and once against the frozen /verif/ref (libref.so).  Built with
 // -fvisibility=hidden -Wl,-Bsymbolic -fno-access-control; only verif_glue_api() is exported.
+#include <new>
 #include <algorithm>
 #include <array>
 #include <cstdio>
@@ -306,6 +307,10 @@ void Run(void* mp, const VState* in, const u16* words, int nwords, int cycles, V
     std::memset(res, 0, offsetof(RunResult, log));
     res->write_digest = 0;
     res->access_digest = 0;
+    // every execution starts from a freshly constructed register file: a member the harness does not know about can then never
+    // leak from one execution into the next (the interpreter object holds the 65536-entry decode table and is too expensive to
+    // rebuild per execution; its private latches are reset explicitly below)
+    m->regs = RegisterState{};
     LoadState(*in, m->regs);
     m->interpreter.idle = false;
     for (auto& p : m->interpreter.interrupt_pending)
